@@ -323,7 +323,9 @@ def _static_quantifier(eng, st, g, is_any):
 def b_any(eng, st, args, kwargs, node):
     m = eng.method_models.get("any()")
     if m:
-        return m(eng, st, args[0], node)
+        r = m(eng, st, args[0], node)
+        if r is not None:
+            return r
     r = _static_quantifier(eng, st, args[0], True) if args else None
     if r is not None:
         return r
@@ -333,7 +335,9 @@ def b_any(eng, st, args, kwargs, node):
 def b_all(eng, st, args, kwargs, node):
     m = eng.method_models.get("all()")
     if m:
-        return m(eng, st, args[0], node)
+        r = m(eng, st, args[0], node)
+        if r is not None:
+            return r
     r = _static_quantifier(eng, st, args[0], False) if args else None
     if r is not None:
         return r
